@@ -1219,7 +1219,7 @@ impl<'a> G<'a> {
         }
     }
     pub fn redeemer(&mut self) -> Redeemer {
-        let ix = self.u32() as u64;
+        let ix = if self.wide_index && self.r.below(3) == 0 { self.r.wide_u64() } else { self.u32() as u64 };
         Redeemer::new(&self.redeemer_tag(), &BigNum::from(ix), &self.plutus_data(), &self.ex_units())
     }
     pub fn redeemers(&mut self, allow_empty: bool) -> Redeemers {
